@@ -119,13 +119,16 @@ class ConnAdapter:
     def _send_all(self):
         for m, n in enumerate(self.msgs, 1):
             data = payload(m, n)
-            if n and n % 4 == 0:
-                # a buffer of 4-byte items: offset and size still count bytes
-                self.cw.send_bytes(array.array('I', b'abcd' + data + b'wxyz'), 4, n)
-            elif m % 2:
-                self.cw.send_bytes(data)
-            else:                      # any bytes-like object with a valid offset and size
-                self.cw.send_bytes(memoryview(b'xy' + data + b'z'), 2, n)
+            try:
+                if n and n % 4 == 0:
+                    # a buffer of 4-byte items: offset and size still count bytes
+                    self.cw.send_bytes(array.array('I', b'abcd' + data + b'wxyz'), 4, n)
+                elif m % 2:
+                    self.cw.send_bytes(data)
+                else:                      # any bytes-like object with a valid offset and size
+                    self.cw.send_bytes(memoryview(b'xy' + data + b'z'), 2, n)
+            except ValueError:
+                self.slog.append('valid_refused')      # valid arguments were rejected
         self.sender.yield_(('done', 0))
 
     def _recv_loop(self):
